@@ -26,6 +26,6 @@ PROP = dict(
     assumptions=["202 answers cost a real ~1 s poll interval (defaultPollBackOff is not injectable): at most 1 (quick) / 2 (thorough) per trace; "
                  "the 15 min poll timeout (GiveUp202) is model-checked only",
                  "bulk traces avoid the input class of known finding F35 (a cut after k>0 bytes followed by a complete answer); "
-                 "3 dedicated traces (reset cfg f35 = partial_then_full) sit inside it",
+                 "2 dedicated traces (reset cfg f35 = partial_then_full) sit inside it",
                  "truncation of a body delimited only by connection close (HTTP/1.0 style) is undetectable and out of scope"],
 )
